@@ -241,7 +241,7 @@ func factsC18(r *Repo) []Fact {
 	na, naFile := rp.Func("", "NewAgent")
 	whereNA := "flow/agent/react/" + naFile + ": func NewAgent"
 	if na == nil || na.Body == nil {
-		for _, n := range []string{"defaultCheckerIsFirstChunk", "maxStepPassed", "pregelAnyPredecessor", "modelPreAppends", "toolsPreAppends", "toolsPreSetsReturnDirectlyId"} {
+		for _, n := range []string{"defaultCheckerIsFirstChunk", "maxStepPassed", "maxStepExported", "exportedAnyPredecessor", "pregelAnyPredecessor", "modelPreAppends", "toolsPreAppends", "toolsPreSetsReturnDirectlyId"} {
 			out = append(out, unknownFact(n, "Bool", "false", "flow/agent/react", "func NewAgent not found"))
 		}
 		t := &c18Topo{bad: []string{"func NewAgent not found"}}
@@ -456,6 +456,60 @@ func factsC18(r *Repo) []Fact {
 			return true
 		})
 		out = append(out, boolFact("maxStepPassed", optsLit && passed && compiled, whereNA+": compose.WithMaxRunSteps(config.MaxStep) in compileOpts, graph.Compile(ctx, compileOpts...)"))
+		// 4b. the same option list travels with the exported graph: the Agent literal stores
+		// graphAddNodeOpts = {compose.WithGraphCompileOptions(compileOpts...)}, ExportGraph returns
+		// (r.graph, r.graphAddNodeOpts), and nothing else assigns the field
+		exportedOpts, exportedGraph := false, false
+		ast.Inspect(na.Body, func(n ast.Node) bool {
+			cl, ok := n.(*ast.CompositeLit)
+			if !ok || exprString(cl.Type) != "Agent" {
+				return true
+			}
+			for _, el := range cl.Elts {
+				kv, ok := el.(*ast.KeyValueExpr)
+				if !ok {
+					continue
+				}
+				switch exprString(kv.Key) {
+				case "graph":
+					exportedGraph = exprString(kv.Value) == "graph"
+				case "graphAddNodeOpts":
+					if ol, ok := kv.Value.(*ast.CompositeLit); ok && len(ol.Elts) == 1 {
+						if c, ok := ol.Elts[0].(*ast.CallExpr); ok && exprString(c.Fun) == "compose.WithGraphCompileOptions" &&
+							len(c.Args) == 1 && c.Ellipsis != token.NoPos && exprString(c.Args[0]) == "compileOpts" {
+							exportedOpts = true
+						}
+					}
+				}
+			}
+			return true
+		})
+		exportReturns := false
+		if eg, _ := rp.Func("Agent", "ExportGraph"); eg != nil && eg.Body != nil && len(eg.Body.List) == 1 && eg.Recv != nil &&
+			len(eg.Recv.List) == 1 && len(eg.Recv.List[0].Names) == 1 {
+			rv := eg.Recv.List[0].Names[0].Name
+			if rs, ok := eg.Body.List[0].(*ast.ReturnStmt); ok && len(rs.Results) == 2 &&
+				exprString(rs.Results[0]) == rv+".graph" && exprString(rs.Results[1]) == rv+".graphAddNodeOpts" {
+				exportReturns = true
+			}
+		}
+		fieldWrites := 0 // assignments to .graphAddNodeOpts / .graph anywhere in the package (other than the literal)
+		for _, fn := range rp.Names {
+			ast.Inspect(rp.Files[fn], func(n ast.Node) bool {
+				if as, ok := n.(*ast.AssignStmt); ok {
+					for _, l := range as.Lhs {
+						if se, ok := l.(*ast.SelectorExpr); ok && (se.Sel.Name == "graphAddNodeOpts" || (se.Sel.Name == "graph" && exprString(se.X) != "")) {
+							fieldWrites++
+						}
+					}
+				}
+				return true
+			})
+		}
+		whereEx := whereNA + " + func (Agent) ExportGraph: graphAddNodeOpts = {compose.WithGraphCompileOptions(compileOpts...)} returned with the graph"
+		exportsSame := optsLit && exportedOpts && exportedGraph && exportReturns && fieldWrites == 0
+		out = append(out, boolFact("maxStepExported", exportsSame && passed, whereEx+"; compose.WithMaxRunSteps(config.MaxStep) in compileOpts"))
+		out = append(out, boolFact("exportedAnyPredecessor", exportsSame && anyPred, whereEx+"; compose.WithNodeTriggerMode(compose.AnyPredecessor) in compileOpts"))
 		out = append(out, boolFact("pregelAnyPredecessor", optsLit && anyPred && compiled, whereNA+": compose.WithNodeTriggerMode(compose.AnyPredecessor) in compileOpts"))
 
 		// 5. history appended by the two state pre-handlers, which are attached to the nodes
